@@ -1,5 +1,6 @@
 """Contracts on bitcoinlib/scripts.py: push encoding, script numbers, stack operations."""
-from pyvc.api import contract, Int, Bytes, Bool, ListOf, implies
+import z3
+from pyvc.api import contract, Int, Bytes, Bool, ListOf, implies, T
 from spec import script as sp
 
 
@@ -67,3 +68,96 @@ class encode_num_reencode:
 
     def result_is(b):
         return b
+
+
+# ---------------------------------------------------------------------------------------------------
+# C19: one contract per Stack.op_* method against the consensus effect (spec/script.py)
+
+from bitcoinlib.scripts import Stack
+
+_StackT = ListOf(Bytes, cls=Stack)
+
+
+def _op_contract(name, spec_fn, requires=None, pin_fn=None, bounds=None, specname=None, stack_t=None, bounded=None):
+    """`self` is any stack (any depth, any byte strings).  FAIL is what Script.evaluate turns into False:
+    the method returns False or raises.  Otherwise the stack afterwards is exactly the consensus stack."""
+
+    def ensures(old_self, self, result):
+        exp = spec_fn(list(old_self))
+        if exp is None:
+            return result is False
+        return result is not False and list(self) == exp
+
+    def raises_cond(old_self):
+        return spec_fn(list(old_self)) is None
+
+    def pin_holds(old_self, self, result):
+        exp = pin_fn(list(old_self))
+        if exp is None:
+            return result is False
+        return result is not False and list(self) == exp
+
+    d = {'params': {'self': stack_t or _StackT}, 'ensures': ensures, 'bounded': bounded, 'raises': {Exception: raises_cond},
+         'prepare': lambda self: {'self': Stack(self)},
+         '__doc__': 'Stack.%s has the consensus effect of %s on every stack' % (name, (specname or name).upper())}
+    if requires is not None:
+        d['requires'] = requires
+    if pin_fn is not None:
+        d['pins'] = {'F-C19-' + name: pin_holds}
+    if bounds:
+        d['bounds'] = bounds
+    cls = type(name, (), d)
+    return contract('bitcoinlib.scripts.Stack.' + name, props=('C19',))(cls)
+
+
+def _depth_ok(self):
+    return len(self) <= 1000          # MAX_STACK_SIZE
+
+
+def _size_ok(self):
+    return len(self) == 0 or len(self[-1]) <= 520      # MAX_SCRIPT_ELEMENT_SIZE
+
+
+SIMPLE_OPS = ['op_nop', 'op_verify', 'op_return', 'op_2drop', 'op_2dup', 'op_3dup', 'op_2over', 'op_2rot', 'op_2swap',
+              'op_ifdup', 'op_drop', 'op_dup', 'op_nip', 'op_over', 'op_rot', 'op_swap', 'op_tuck',
+              'op_equal', 'op_equalverify', 'op_1add', 'op_1sub', 'op_negate', 'op_abs', 'op_not', 'op_0notequal',
+              'op_add', 'op_sub', 'op_booland', 'op_boolor', 'op_numequal', 'op_numequalverify', 'op_numnotequal',
+              'op_min', 'op_max', 'op_within', 'op_ripemd160', 'op_sha1', 'op_sha256', 'op_hash160', 'op_hash256']
+from spec import pins_c19 as _pins
+for _n in SIMPLE_OPS:
+    _op_contract(_n, getattr(sp, _n), pin_fn=getattr(_pins, _n, None))
+_op_contract('op_depth', sp.op_depth, requires=_depth_ok)
+_op_contract('op_size', sp.op_size, requires=_size_ok)
+
+
+class _SmallStackT(T):
+    """BOUNDED shape for PICK / ROLL (symbolic stack positions): depth 0..6, numeric operand on top of 0..5 bytes
+    (every byte symbolic), other items byte strings of any length.  Complete for these shapes, nothing beyond."""
+    MAX_DEPTH = 6
+
+    def fresh(self, ctx, name):
+        d = ctx.fresh_int('depth_' + name)
+        ctx.assume(z3.And(d >= 0, d <= self.MAX_DEPTH))
+        depth = ctx.concretize(d, limit=10, what='stack depth')
+        items = [Bytes.fresh(ctx, '%s[%d]' % (name, i)) for i in range(max(depth - 1, 0))]
+        if depth >= 1:
+            items.append(Bytes(max=5, split=True).fresh(ctx, '%s.top' % name))
+        return Stack(items)
+
+    def sample(self, rng):
+        depth = rng.randint(0, self.MAX_DEPTH)
+        items = [bytes(rng.getrandbits(8) for _ in range(rng.choice([0, 1, 2, 5, 33]))) for _ in range(max(depth - 1, 0))]
+        if depth:
+            top = rng.choice([b'', b'\x00', b'\x01', b'\x02', b'\x03', b'\x05', b'\x06', b'\x81', b'\x80', b'\x01\x00', b'\x00\x01',
+                              bytes(rng.getrandbits(8) for _ in range(rng.randint(0, 5)))])
+            items.append(top)
+        return Stack(items)
+
+
+_op_contract('op_pick', sp.op_pick, pin_fn=_pins.op_pick, stack_t=_SmallStackT(), bounded='stack depth <= 6, operand length <= 5 bytes')
+_op_contract('op_roll', sp.op_roll, pin_fn=_pins.op_roll, stack_t=_SmallStackT(), bounded='stack depth <= 6, operand length <= 5 bytes')
+for _n, _s in [('op_numlessthan', 'op_lessthan'), ('op_numgreaterthan', 'op_greaterthan'),
+               ('op_numlessthanorequal', 'op_lessthanorequal'), ('op_numgreaterthanorequal', 'op_greaterthanorequal')]:
+    _op_contract(_n, getattr(sp, _s), pin_fn=getattr(_pins, _n), specname=_s)
+for _n in ['op_nop1', 'op_nop4', 'op_nop5', 'op_nop6', 'op_nop7', 'op_nop8', 'op_nop9', 'op_nop10']:
+    _op_contract(_n, sp.op_nop, specname='op_nop')
